@@ -152,8 +152,8 @@ pub fn replay(v: &Value) -> Result<Option<String>, String> {
     }
 }
 
-fn carrier_sets(n: usize) -> Vec<Vec<bool>> {
-    if n <= 5 {
+fn carrier_sets(n: usize, thorough: bool) -> Vec<Vec<bool>> {
+    if n <= 5 || (thorough && n == 6) {
         (1u32..((1 << n) - 1)).map(|m| (0..n).map(|i| m & (1 << i) != 0).collect()).collect()
     } else {
         vec![(0..n).map(|i| i == 2).collect(), (0..n).map(|i| i % 2 == 0).collect(), (0..n).map(|i| i != 1).collect(), (0..n).map(|i| i < n / 2).collect()]
@@ -182,7 +182,7 @@ pub fn run(ctx: &Ctx, rep: &mut Report) {
         plans.push(vec![(starts[0], 10), (starts[1], 2), (starts[2], 2)]);
         for segs in plans {
             for n in [3usize, 4, 5, 6, 8] {
-                let cs = carrier_sets(n);
+                let cs = carrier_sets(n, thorough);
                 for (ci, carriers) in cs.iter().enumerate() {
                     for alt in [false, true] {
                         if alt && (n > 4 || !thorough && ci % 3 != 0) {
